@@ -103,8 +103,18 @@ def cli_args(o):
     return a
 
 
+def sample_seed(rnd):
+    """seeds over the whole u64 range, its edges included"""
+    r = rnd.random()
+    if r < 0.5:
+        return rnd.randrange(0, 100000)
+    if r < 0.75:
+        return rnd.choice([0, 1, 5, 6, 2**31, 2**32 - 1, 2**32, 2**53 + 1, 2**63 - 1, 2**63, 2**64 - 6, 2**64 - 1])
+    return rnd.randrange(0, 2**64)
+
+
 def sample_options(rnd):
-    o = dict(seed=rnd.randrange(0, 100000))
+    o = dict(seed=sample_seed(rnd))
     if rnd.random() < 0.6: o["protocol"] = rnd.randrange(0, 6)
     if rnd.random() < 0.5:
         o["min"] = rnd.choice([0, 5, 30, 60, 100]); o["max"] = rnd.choice([0, 5, 40, 120, 300])
@@ -127,6 +137,9 @@ def run_cli(binary, n, rnd, out):
             o = fixed[k] if k < len(fixed) else sample_options(rnd)
             f = os.path.join(tmp, "o.pkl")
             if os.path.exists(f): os.remove(f)
+            if k % 3 == 1:
+                # the output file already exists and is longer than anything the tool will write
+                open(f, "wb").write(b"\xee" * 200000)
             rc, so, se = sh([binary] + cli_args(o) + [f])
             want = lib_bytes(spec_case(o))
             got = open(f, "rb").read() if os.path.exists(f) else b""
@@ -140,11 +153,17 @@ def run_cli(binary, n, rnd, out):
 def run_batch(binary, n, rnd, out):
     for k in range(n):
         o = sample_options(rnd)
-        samples = rnd.choice([1, 3, 17])
+        samples = rnd.choice([0, 1, 2, 3, 5, 17, 33])
         for threads in (1, 2, 16):
             tmp = tempfile.mkdtemp(prefix="pfv-batch-")
             d = os.path.join(tmp, "out")
             try:
+                reused = (k + threads) % 2 == 0 and samples > 0
+                if reused:
+                    # the directory is re-used: some of the files exist already and are longer than the new ones
+                    os.makedirs(d)
+                    for i in range(0, samples, 2):
+                        open(os.path.join(d, "%d.pkl" % i), "wb").write(b"\xee" * 200000)
                 rc, so, se = sh([binary, "--dir", d, "--samples", str(samples)] + cli_args(o),
                                 env=dict(ENV, RAYON_NUM_THREADS=str(threads)))
                 names = sorted(os.listdir(d)) if os.path.isdir(d) else []
@@ -231,7 +250,7 @@ for line in sys.stdin:
 def run_python(pkg, n, rnd, out):
     tests = []
     for k in range(n):
-        t = dict(kind="gen" if rnd.random() < 0.7 else "mutate", protocol=rnd.randrange(0, 6), seed=rnd.randrange(0, 100000), warm=rnd.choice([0, 0, 1, 2]))
+        t = dict(kind="gen" if rnd.random() < 0.7 else "mutate", protocol=rnd.randrange(0, 6), seed=sample_seed(rnd), warm=rnd.choice([0, 0, 1, 2]))
         if t["kind"] == "gen":
             t["ranges"] = [] if rnd.random() < 0.4 else [(rnd.choice([0, 10, 60]), rnd.choice([20, 100, 300]))] * rnd.choice([1, 2])
             t["data"] = None if rnd.random() < 0.5 else bytes(rnd.randrange(256) for _ in range(rnd.randrange(0, 200))).hex()
@@ -304,7 +323,7 @@ def run_python_scripts(pkg, n, rnd, out):
         return bytes(rnd.randrange(256) for _ in range(k)).hex()
     tests = []
     for k in range(n):
-        t = dict(protocol=rnd.randrange(0, 6), seed=rnd.randrange(0, 100000), steps=[])
+        t = dict(protocol=rnd.randrange(0, 6), seed=sample_seed(rnd), steps=[])
         d = blob(rnd.choice([0, 3, 40, 64, 200]))
         d2 = blob(rnd.choice([1, 17, 90]))
         big = 10 ** 6
